@@ -870,6 +870,11 @@ Proof.
     exact (write_own st nx v idx r D L Hnx Hr Hinv).
   - (* OSwap *)
     destruct (pr =? 0); [|discriminate]. exact (swap_own st nx v1 i v2 j r D L Hr Hinv).
+  - (* OLazyDown: the clone is created and destroyed by the caller *)
+    unfold sp_lazy_down in Hr. destruct (get_a v st) as [av|]; [|discriminate].
+    destruct (idx <? N.of_nat (length (a_xs av))); injection Hr as <-;
+      cbn [ok_res panic_res s_nx s_st s_evs leak_of]; [|cbn [drops flat_map]; perm_count].
+    rewrite (created_succ c nx Hnx). unfold drop_ev. rewrite Hdg. cbn [drops flat_map app]. perm_count.
 Qed.
 
 Lemma take_drop_own_f st nx v tk idx k r D L :
